@@ -57,6 +57,8 @@ func (p *Processor) NotifyRecharge(ueId string, rg int32) bool {
 	})
 
 	notifyRequest := models.ChargingNotifyRequest{
+		// what a recharge sends is a re-authorisation notification (notificationType is mandatory, TS 32.291)
+		NotificationType:       models.ChfConvergedChargingNotificationType_REAUTHORIZATION,
 		ReauthorizationDetails: reauthorizationDetails,
 	}
 
